@@ -475,6 +475,19 @@ impl Sf32 {
         if let (Some(x), Some(l), Some(h)) = (cv(self.0), cv(lo.0), cv(hi.0)) {
             return c(x.clamp(l, h));
         }
+        // one-sided intervals: an infinite bound never binds
+        match (cv(lo.0), cv(hi.0)) {
+            (Some(l), Some(h)) if l == f32::NEG_INFINITY && h == f32::INFINITY => return self,
+            (Some(l), _) if l == f32::NEG_INFINITY => {
+                let c2 = with(|a| a.mkc(Cond::Lt(hi.0, self.0)));
+                return ite(c2, hi, self);
+            }
+            (_, Some(h)) if h == f32::INFINITY => {
+                let c1 = with(|a| a.mkc(Cond::Lt(self.0, lo.0)));
+                return ite(c1, lo, self);
+            }
+            _ => {}
+        }
         if !(lo <= hi) {
             panic!("min > max, or either was NaN. min = {:?}, max = {:?}", lo, hi);
         }
